@@ -308,6 +308,17 @@ where
     }
 }
 
+/// Turn a parser's hard `Failure` into a recoverable `Error`, for speculative use inside `alt`.
+fn recoverable<'a, O, P>(mut parser: P) -> impl FnMut(Span<'a>) -> IResult<Span<'a>, O>
+where
+    P: FnMut(Span<'a>) -> IResult<Span<'a>, O>,
+{
+    move |input: Span<'a>| match parser(input) {
+        Err(nom::Err::Failure(error)) => Err(nom::Err::Error(error)),
+        other => other,
+    }
+}
+
 fn ws0(input: Span) -> IResult<Span, ()> {
     nom_value((), multispace0)(input)
 }
@@ -2247,7 +2258,15 @@ fn chain(input: Span) -> IResult<Span, Chain> {
         // Match pattern: pattern = chain_inner
         map(
             pair(
-                terminated(spanned(match_pattern), tuple((ws1, char('='), ws1))),
+                // Whether this is a binding at all is only known once the ` = ` is seen, so a hard
+                // failure inside the speculative pattern (a string literal read with the pattern
+                // rules: `"{#\T}"` has no valid *pattern* escapes, but is a fine string term with a
+                // hole) must not abort the parse: the plain-chain alternative gets its turn and
+                // reports its own failure if the text is not a valid term either.
+                terminated(
+                    recoverable(spanned(match_pattern)),
+                    tuple((ws1, char('='), ws1)),
+                ),
                 chain_inner,
             ),
             |((bind_span, match_pattern), terms)| Chain {
